@@ -3,7 +3,7 @@
 use crate::conv::*;
 use crate::engine::*;
 use crate::gen::G;
-use crate::gens::*;
+
 use crate::model::*;
 use crate::shim::*;
 use crate::transport::Schedule;
